@@ -867,4 +867,38 @@ fn public_part(args: &Args, report: &mut Report) {
         }
         drop(listeners);
     }
+    // a candidate whose socket cannot even be set up (local address of its family is not available on this host):
+    // that is one failed candidate, the others are still tried
+    for t in 0..(if args.tier_thorough { 12 } else { 3 }) {
+        let good = std::net::TcpListener::bind("127.0.0.11:0").unwrap();
+        let good_addr = good.local_addr().unwrap();
+        let bad_v6: SocketAddr = format!("[::1]:{}", good_addr.port()).parse().unwrap();
+        let mut config = TcpTransportConfig::default();
+        config.happy_eyeballs_timeout = Some(Duration::from_secs(20));
+        config.happy_eyeballs_concurrency = [None, Some(1), Some(2)][t % 3];
+        config.local_address_ipv6 = Some("2001:db8::1".parse().unwrap());
+        let transport: TcpTransport = TcpTransport::builder().with_config(config).with_gai_resolver().build();
+        for (name, addrs, want_ok) in [("unusable-then-listening", vec![bad_v6, good_addr], true), ("listening-then-unusable", vec![good_addr, bad_v6], true), ("unusable-only", vec![bad_v6], false)] {
+            let tr = transport.clone();
+            let a2 = addrs.clone();
+            let res = rt.block_on(async move { tokio::time::timeout(Duration::from_secs(30), tr.connect_to_addrs(a2)).await });
+            p.eval(Some(hash_of(&("pub-setup", name, t % 3))));
+            p.count("public_trials_candidate_setup_failure", 1);
+            let case = json!({"engine":"eyeballs","public":true,"setup_failure_trial": name, "concurrency": t % 3});
+            match res {
+                Err(_) => p.inconclusive.push(format!("public trial watchdog fired {case}")),
+                Ok(Ok(stream)) => {
+                    if !want_ok || stream.peer_addr().ok() != Some(good_addr) {
+                        p.violation("public:connected-to-unusable-candidate", format!("{case} -> {:?}", stream.peer_addr().ok()), case);
+                    }
+                }
+                Ok(Err(e)) => {
+                    if want_ok {
+                        p.violation("public:error-although-a-candidate-listens:candidate-setup-failure", format!("{case}: candidates {addrs:?}, the IPv6 one cannot be set up (local_address_ipv6 is not available), the IPv4 one listens -> {e}"), case);
+                    }
+                }
+            }
+        }
+        drop(good);
+    }
 }
